@@ -196,6 +196,75 @@ pub fn run(ctx: &mut Ctx) {
         }
     }
 
+    // ---- S: streams -- from_multiple, from_slice_multiple and the reader iterator (any chunking) give the same
+    // sequence of documents
+    {
+        let pieces: &[&str] = &["a: 1\n", "- x\n- y\n", "~\n", "", "|\n", "|-\n", ">\n", ">-\n", "''\n", "\"\"\n", "null\n", "|\n  text\n", "# only a comment\n", "plain\n", "[]\n", "{}\n", "&a x\n", "!!str\n", "...\n"];
+        let mut streams: Vec<String> = Vec::new();
+        for a in pieces {
+            for b in pieces {
+                streams.push(format!("--- {a}--- {b}"));
+                streams.push(format!("--- {a}...\n--- {b}...\n"));
+            }
+            streams.push(format!("--- {a}--- second\n--- {a}--- {a}"));
+        }
+        for text in &streams {
+            let canon_list = |r: Result<Vec<Tree>, serde_saphyr::Error>| match r {
+                Ok(v) => format!("{v:?}"),
+                Err(e) => format!("Err({})", coq::variant_name(e.without_snippet())),
+            };
+            let base = canon_list(serde_saphyr::from_multiple_with_options::<Tree>(text, opts()));
+            ctx.direct_evaluations += 1;
+            let sl = canon_list(serde_saphyr::from_slice_multiple_with_options::<Tree>(text.as_bytes(), opts()));
+            if sl != base {
+                ctx.fail("stream-entry-points-differ", format!("from_slice_multiple on {text:?} gives {sl}, from_multiple {base}"), json!({"kind": "stream", "text": text}));
+            }
+            for step in [1usize, 3, 4096] {
+                ctx.direct_evaluations += 1;
+                let bytes = text.as_bytes();
+                let cuts: Vec<usize> = (1..bytes.len()).filter(|i| i % step == 0).collect();
+                let mut rd = Scripted::new(scripted::chunks_at(bytes, &cuts));
+                // the iterator reports an error as an item and goes on; from_multiple stops at the first error
+                let mut items: Vec<Tree> = Vec::new();
+                let mut err: Option<String> = None;
+                for it in serde_saphyr::read_with_options::<_, Tree>(&mut rd, opts()).take(64) {
+                    match it {
+                        Ok(v) => items.push(v),
+                        Err(e) => {
+                            err = Some(coq::variant_name(e.without_snippet()));
+                            break;
+                        }
+                    }
+                }
+                let got = match err { None => format!("{items:?}"), Some(e) => format!("Err({e})") };
+                if got != base {
+                    ctx.fail("stream-entry-points-differ", format!("read ({step}-byte chunks) on {text:?} gives {got}, from_multiple {base}"), json!({"kind": "stream", "text": text, "step": step}));
+                }
+            }
+        }
+    }
+
+    // ---- S: borrowed mapping keys (verbatim in the input, so they can be lent like values)
+    {
+        use std::collections::{BTreeMap, HashMap};
+        for (text, verbatim) in [("k1: 1\nk2: 2\n", true), ("{'q k': 1, \"d\": 2}\n", true), ("\"esc\\n\": 1\n", false), ("? k\n: 1\n", true), ("日本: 1\né: 2\n", true)] {
+            ctx.direct_evaluations += 2;
+            let o = serde_saphyr::from_str::<BTreeMap<String, i32>>(text);
+            let b = serde_saphyr::from_str::<BTreeMap<&str, i32>>(text).map(|m| m.into_iter().map(|(k, v)| (k.to_string(), v)).collect::<BTreeMap<String, i32>>());
+            let h = serde_saphyr::from_slice_with_options::<HashMap<&str, i32>>(text.as_bytes(), opts()).map(|m| m.into_iter().map(|(k, v)| (k.to_string(), v)).collect::<BTreeMap<String, i32>>());
+            for (name, got) in [("BTreeMap<&str, i32> via from_str", &b), ("HashMap<&str, i32> via from_slice_with_options", &h)] {
+                let ok = match (&o, got) {
+                    (Ok(x), Ok(y)) => verbatim && x == y,
+                    (Ok(_), Err(_)) => !verbatim,
+                    _ => false,
+                };
+                if !ok {
+                    ctx.fail("borrow-mismatch", format!("{name} on {text:?}: borrowed keys {got:?}, owned {o:?}, keys verbatim in input: {verbatim}"), json!({"kind": "borrow-keys", "text": text}));
+                }
+            }
+        }
+    }
+
     // ---- S: borrowed strings
     let cases: &[(&str, Vec<bool>)] = &[
         ("v: [plain, 'single', \"double\", \"esc\\n\", 'it''s', two words]\n", vec![true, true, true, false, false, true]),
